@@ -404,3 +404,116 @@ def is_state_enter_exit(repo: Repo, s: Site, names=("enter", "exit")) -> bool:
         f = f.outer
     return (f is not None and f.cls is not None and f.name in names and f.relpath.startswith(states.VS_DIR)
             and "VehicleState" in repo.base_names(f.cls))
+
+
+# ------------------------------------------------------------------------------------------ folds
+FOLD_EXCEPTIONS = {
+    # (file, enclosing function, reducer) -> reason
+    ("nrel/hive/state/simulation_state/update/step_simulation_ops.py", "perform_driver_state_updates", "_step_drivers"):
+        "returns the fold's initial state on the error/None branches; those branches are unreachable for the built-in "
+        "driver states (update() only errs on a missing vehicle and the fold iterates the state's own vehicles; "
+        "apply_new_driver_state -> modify_vehicle keeps the position). Recorded as a latent observation in DESIGN 6.4.",
+}
+
+
+def _reducer_node(repo: Repo, fn: Func, f_expr: ast.AST):
+    """Resolve the first argument of ft.reduce to (node, label, bound_kwargs)."""
+    if isinstance(f_expr, ast.Lambda):
+        return f_expr, "<lambda>"
+    if isinstance(f_expr, ast.Name):
+        # nested def in fn or an enclosing function, or module-level function
+        f = fn
+        while f is not None:
+            cand = fn.module.funcs.get(f"{f.qualname}.{f_expr.id}")
+            if cand is not None:
+                return cand.node, f_expr.id
+            f = f.outer
+        cand = fn.module.funcs.get(f_expr.id)
+        if cand is not None:
+            return cand.node, f_expr.id
+        return None, f_expr.id
+    if isinstance(f_expr, ast.Call) and flow.dump(f_expr.func) in ("ft.partial", "functools.partial", "partial") and f_expr.args:
+        return _reducer_node(repo, fn, f_expr.args[0])
+    return None, flow.dump(f_expr)[:40]
+
+
+def rule_fold_threading(ctx: Ctx, clause: str, fn: Func, min_sites: int = 1, rule="DU.fold-threading"):
+    """Inside `fn`: every ft.reduce reducer returns a value derived from its accumulator parameter and
+    never reaches back to the fold's initial value; every loop that rebinds a variable carried across
+    iterations computes the new value from the previous one. (A reducer that returns the captured
+    pre-fold state on some branch silently discards the work of all earlier elements.)"""
+    repo = ctx.repo
+    n = 0
+    ctx.touched(fn)
+    for node in ast.walk(fn.node):
+        if isinstance(node, ast.Call) and flow.dump(node.func) in ("ft.reduce", "functools.reduce", "reduce") and len(node.args) >= 2:
+            from .index import enclosing_func
+            if enclosing_func(node) is not fn:
+                continue
+            rnode, label = _reducer_node(repo, fn, node.args[0])
+            init = node.args[2] if len(node.args) > 2 else None
+            if rnode is None:
+                ctx.info(clause, rule, f"{fn.qualname}: reducer {label} not resolvable (callable parameter)", fn, node)
+                continue
+            n += 1
+            a = rnode.args
+            params = [x.arg for x in a.posonlyargs + a.args]
+            if not params:
+                continue
+            acc = params[0]
+            init_name = init.id if isinstance(init, ast.Name) else None
+            key = (fn.relpath, fn.qualname, label)
+            bad = []
+            for p in flow.paths(rnode):
+                if p.kind != "return":
+                    continue
+                if not flow.mentions(p.value, acc):
+                    bad.append((p, f"returns {flow.dump(p.value)[:80]}, which does not derive from the accumulator `{acc}`"))
+                elif init_name and init_name != acc and flow.mentions(p.value, init_name) and not isinstance(init, ast.Constant):
+                    # mentions both: only suspicious if a state-update call is fed the initial value
+                    for c in flow.calls_in(p.value):
+                        if c.args and isinstance(c.args[0], ast.Name) and c.args[0].id == init_name:
+                            bad.append((p, f"applies {flow.dump(c.func)} to the fold's initial value `{init_name}` instead of the accumulator"))
+            inst = f"{fn.qualname}: reducer {label} threads its accumulator"
+            if bad and key in FOLD_EXCEPTIONS:
+                ctx.info(clause, rule, inst + " [tabled exception]", fn, node, why=FOLD_EXCEPTIONS[key])
+            elif bad:
+                p, why = bad[0]
+                ctx.violation(clause, rule, inst, fn, p.end or node,
+                              why=f"on path [{p.cond_text()[:200]}] the reducer {why}: the effects of earlier elements are discarded",
+                              construct=f"{fn.qualname}:{label}:fold-drops-accumulator")
+            else:
+                ctx.ok(clause, rule, inst, fn, node, why="every return derives from the accumulator parameter")
+    # loops that carry a variable across iterations
+    from .loader import walk_stmts
+    for s in walk_stmts(fn.node):
+        if not isinstance(s, (ast.For, ast.While)):
+            continue
+        assigned = set()
+        for t in ast.walk(s):
+            if isinstance(t, ast.Name) and isinstance(t.ctx, ast.Store):
+                assigned.add(t.id)
+        loop_targets = flow.target_names(s.target) if isinstance(s, ast.For) else set()
+        try:
+            bps = flow.paths_of_block(s.body)
+        except AnalysisError:
+            continue
+        for var in sorted(assigned - loop_targets):
+            # carried = read in the body before being (re)assigned on some path, or used after the loop
+            carried = any(flow.mentions(p.env.get(var), var) for p in bps if var in p.env)
+            rebinds = [p for p in bps if var in p.env and not (isinstance(p.env[var], ast.Name) and p.env[var].id == var)]
+            if not carried or not rebinds:
+                continue
+            n += 1
+            bad = [p for p in rebinds if not flow.mentions(p.env[var], var)]
+            inst = f"{fn.qualname}: loop at line {s.lineno} carries `{var}` from one iteration to the next"
+            if bad:
+                p = bad[0]
+                ctx.violation(clause, rule, inst, fn, s,
+                              why=f"on path [{p.cond_text()[:200]}] `{var}` is replaced by {flow.dump(p.env[var])[:100]}, which does not derive from its previous value",
+                              construct=f"{fn.qualname}:loop:{var}:drops-previous")
+            else:
+                ctx.ok(clause, rule, inst, fn, s, why="every rebinding derives from the previous value")
+    if n < min_sites:
+        ctx.soft_fail(f"fold-threading: expected at least {min_sites} folds/loops in {fn.qualname}, found {n}")
+    return n
